@@ -198,7 +198,7 @@ func (tc *trigCtx) addPatterns(n *tsx, pos bool) *tsx {
 					pats = append(pats, "(TRIG "+b.kids[0].atom+")")
 				}
 			}
-			if len(pats) > 0 {
+			if len(pats) > 0 && len(pats) == len(n.kids[1].kids) { // a pattern must mention every bound variable
 				tc.change = true
 				wrapped := &tsx{list: true, kids: []*tsx{{atom: "!"}, nb, {atom: ":pattern"}, {atom: "(" + strings.Join(pats, " ") + ")"}}}
 				return &tsx{list: true, kids: []*tsx{n.kids[0], n.kids[1], wrapped}}
